@@ -179,6 +179,12 @@ def gen_sessions(rng, infra, now, period, distinct_keys=False, user_bounds=True,
             mins = [float(rng.choice([0, 0, mn, 6, 3.3, 8]))] + [0.0] * (rt - 1)
         else:
             mins = [float(rng.choice([0, mn, 2.5])) for _ in range(rt)]
+        if user_bounds and infra["cont"][st] and rng.random() < 0.12:
+            # the session's OWN minimum rate exceeds what is still missing (nearly finished session)
+            m_ = float(rng.choice([6, 8, 12, 3.3]))
+            rem = per_amp * m_ * rng.uniform(0.15, 0.9)
+            deliv = req - rem
+            mins = [m_] + [0.0] * (rt - 1)
         u = rng.random()
         if not user_bounds or u < 0.65:
             maxs = float("inf")
